@@ -131,6 +131,21 @@ def run_check(pid, tier, seed, replay=None):
         nontrivial = getattr(spec, "nontrivial", lambda c, m: True)
         judge = getattr(spec, "judge", None)
         inspect = getattr(spec, "inspect", None)   # implementation-side predicate evaluated on every agreeing case
+        # structural alarm first: did a hint-generator fingerprint case disagree?  Hint overrides are addressed by
+        # (generator kind, occurrence), so after a restructuring an override hits a different site in the implementation
+        # than in the model and a disagreement on such a case is not by itself a failing input.
+        fp_broken = any(m != c.out for c, m in zip(cases, outs) if c.tag.startswith("fingerprint"))
+        override_fids = set(getattr(spec, "OVERRIDE_FIDS", ()))
+
+        def default_judge(c, m):
+            if c.tag.startswith("fingerprint"):
+                return ("differs", "the ordered hint-generator fingerprint of the built circuit no longer matches the model's "
+                                   "trace: the circuit was restructured (a hint-allocating call was added, removed or moved)")
+            if fp_broken and c.fid in override_fids:
+                return ("differs", "hint-override case after a restructuring of the circuit (the override may address a "
+                                   "different site in the implementation than in the model)")
+            return ("violates", "implementation result differs from the proved model on this input")
+        n_viol = n_diff = 0
         for c, m in zip(cases, outs):
             tags[c.tag] = tags.get(c.tag, 0) + 1
             if nontrivial(c, m):
@@ -139,16 +154,23 @@ def run_check(pid, tier, seed, replay=None):
                 why = inspect(c, m)
                 if why:
                     disagreements += 1
-                    if disagreements <= 3:
+                    n_viol += 1
+                    if n_viol <= 3:
                         violations.append(Violation("%s [fid %s, tag %s]" % (why, c.fid, c.tag), case=c, model_out=m,
                                                     found_input=True))
             if m != c.out:
                 disagreements += 1
-                if disagreements <= 3:
-                    verdict = judge(c, m) if judge else ("violates", "implementation result differs from the proved model on this input")
-                    kind, why = verdict
-                    violations.append(Violation("%s [fid %s, tag %s]" % (why, c.fid, c.tag), case=c, model_out=m,
-                                                found_input=(kind == "violates")))
+                kind, why = judge(c, m) if judge else default_judge(c, m)
+                if kind == "violates":
+                    n_viol += 1
+                    if n_viol > 3:
+                        continue
+                else:
+                    n_diff += 1
+                    if n_diff > 2:
+                        continue
+                violations.append(Violation("%s [fid %s, tag %s]" % (why, c.fid, c.tag), case=c, model_out=m,
+                                            found_input=(kind == "violates")))
         step = max(1, len(cases) // 6)
         for c, m in list(zip(cases, outs))[::step][:6]:
             samples.append({"case": c.to_json(), "model_out_hex": m})
